@@ -59,6 +59,17 @@ fn has_non_global_surrounding_splits(txs: &[Tx], idx: usize) -> bool {
 pub fn replace_global_security_splits(
     sorted_security_txs: &mut Vec<Tx>,
 ) -> Result<(), SError> {
+    replace_global_security_splits_with_holders(sorted_security_txs, &[])
+}
+
+/// Like replace_global_security_splits, but the global splits are also applied to
+/// `other_holders`: affiliates which hold the security without necessarily having a
+/// Tx of their own (ie. the default affiliate, when an initial status was given
+/// for the security with --symbol-base).
+pub fn replace_global_security_splits_with_holders(
+    sorted_security_txs: &mut Vec<Tx>,
+    other_holders: &[Affiliate],
+) -> Result<(), SError> {
     // First find all global splits and validate them
     let mut split_indices = Vec::new();
 
@@ -85,6 +96,12 @@ pub fn replace_global_security_splits(
     // Get all affiliates we need to create splits for
     let mut non_global_affiliates: Vec<_> =
         find_all_non_global_affiliates(sorted_security_txs).into_iter().collect();
+
+    for holder in other_holders {
+        if !non_global_affiliates.contains(holder) {
+            non_global_affiliates.push(holder.clone());
+        }
+    }
 
     // Ensure we have at least the default affiliate. This would be a weird case
     // where the only Txs are splits, but we'll handle it anyway.
